@@ -18,7 +18,8 @@ GRAMMAR (anything else raises TranslateError(file, line, construct))
             (such names are never resolved: a use inside a translated function is refused); the names
             numpy / scipy / every translated function are bound exactly once in the whole module (no shadowing,
             no global/nonlocal, no decorators, no nested def/lambda/class, no star-args)
- helper     def interpolate_mode_<m>(mode_volumes, mode_freqs, v_array[, method], order=<int>)
+ helper     def interpolate_mode_<m>(mode_volumes, mode_freqs, v_array[, method], order=<int>); annotations are inert
+            expressions (no calls), defaults are literals
  statements NAME = e | NAME, NAME, .. = e (tuple value of that length; `_` allowed repeatedly) | order += <int>
             | if method == "lit": S* [elif ..]* [else: S*]   (only with `method` bound to a KNOWN string: the helper is
               evaluated once per literal of the chain)        | return e | docstring | pass
@@ -34,7 +35,10 @@ GRAMMAR (anything else raises TranslateError(file, line, construct))
             scipy.interpolate.lagrange(A, A)   -> poly1d                  called: p(X)
             numpy.vander(A, <degree>) ; numpy.linalg.lstsq(<vander>, A[, rcond=None]) -> 4-tuple whose [0] is a
               coefficient array ; numpy.poly1d(<coeffs|poly1d>) ; numpy.polyder(P[, m=n | n]) ; numpy.polyval(P, X)
-            lstsq_polyfit(xs, ys, new_xs, order=..)  : the module's own function, evaluated symbolically (inlined)
+            f(args) for any OTHER function f defined in the module (lstsq_polyfit, a private helper such as
+              _log_nodes): evaluated symbolically = inlined, fresh environment holding only its parameters (bound by
+              Python's positional / keyword rules, no reliance on defaults), its body must be inside this grammar,
+              call depth <= 3;  g(a, *T, k=..) where T evaluates to a tuple display of known length = g(a, T0, .., Tn-1, k=..)
  results    numpy.exp(E) | - E | + E | (E, E, E)
  loop       def interpolate_modes(qha_input, v_array, method=<str>, order=None) with body, in this order:
               NAME = qha_input.nv|nq|np | NAME = v_array.shape[0] | NAME = numpy.zeros((d, d, d)) (d: such a NAME)
@@ -304,9 +308,31 @@ class Helper:
             bail(node, "degree argument `%s` is not the helper's order (+ <int>)" % src_of(node))
         return ("DOrder", v.term)
 
+    def unstar(self, e):
+        """f(a, *t, b, k=..)  ->  f(a, t0, .., tn-1, b, k=..)  when t evaluates to a symbolic TUPLE of known length n
+        (a tuple display, possibly returned by an inlined module function).  That is exactly Python's meaning of a
+        starred positional argument for a tuple; anything else (a list, an array, an unknown value) is refused.  The
+        items are handed on as already-evaluated values under names that are not Python identifiers."""
+        args = []
+        for a in e.args:
+            if not isinstance(a, ast.Starred):
+                args.append(a)
+                continue
+            v = self.ex(a.value)
+            if v.kind != "tuple":
+                bail(a, "starred argument `%s` is not a tuple of known length" % src_of(a))
+            for i, item in enumerate(v.term):
+                self.tr.star_count += 1
+                nm = "*%d.%d" % (self.tr.star_count, i)
+                self.env[nm] = item
+                args.append(ast.copy_location(ast.Name(id=nm, ctx=ast.Load()), a))
+        return ast.copy_location(ast.Call(func=e.func, args=args, keywords=e.keywords), e)
+
     def call(self, e):
-        if any(isinstance(a, ast.Starred) for a in e.args) or any(k.arg is None for k in e.keywords):
-            bail(e, "star-arguments in `%s`" % src_of(e))
+        if any(k.arg is None for k in e.keywords):
+            bail(e, "**-arguments in `%s`" % src_of(e))
+        if any(isinstance(a, ast.Starred) for a in e.args):
+            e = self.unstar(e)
         f = src_of(e.func)
         # ---- numpy array functions
         if f == "numpy.log":
@@ -506,6 +532,7 @@ class Translator:
                 err.args = ("%s:%s: not in the translatable grammar: syntax error: %s" % (SRC, err.line, e.msg),)
                 raise err
         self.funcs = {}
+        self.star_count = 0
         self.module_error = None
         self.errors = {}       # group -> TranslateError
         self.flows = {}        # helper function name -> flow triple | {literal: flow triple}
@@ -568,6 +595,17 @@ class Translator:
                     a = n.args
                     if a.vararg or a.kwarg or a.kwonlyargs or a.posonlyargs:
                         bail(n, "star / keyword-only / positional-only parameters of %s" % n.name)
+                    # annotations and defaults are evaluated when the def statement runs: only inert expressions
+                    for x in [y.annotation for y in a.args if y.annotation is not None] + \
+                            ([n.returns] if n.returns is not None else []):
+                        for z in ast.walk(x):
+                            if not isinstance(z, (ast.Name, ast.Attribute, ast.Subscript, ast.Tuple, ast.Constant,
+                                                  ast.Load, ast.Slice)):
+                                bail(x, "annotation `%s` of %s (only names, attributes, subscripts, constants)"
+                                     % (src_of(x), n.name))
+                    for x in a.defaults:
+                        if not isinstance(x, ast.Constant):
+                            bail(x, "default value `%s` of %s (only literals)" % (src_of(x), n.name))
                     continue
                 bail(n, "async def / class / lambda")
             elif isinstance(n, ast.Name) and isinstance(n.ctx, (ast.Store, ast.Del)):
